@@ -36,6 +36,7 @@ type Obl struct {
 	Model   string
 	Output  string
 	SmtFile string
+	Parts  []string // independent conjuncts of Goal (one per return site): each is discharged by its own query
 	Candidate bool // counterexample came from the weakened (quantifier-free hypotheses) query
 }
 
@@ -45,6 +46,8 @@ type Place struct {
 	keys  []string
 	typ   types.Type
 	local bool
+	// slice element: keys = [arr, off+idx]; reads go through g_at(array, off, idx) so that triggers never contain arithmetic
+	elemOff, elemIdx string
 }
 
 // Val is the symbolic value of an SSA value.
@@ -120,6 +123,8 @@ type Unit struct {
 	mods []modEntry
 	compVolatileType map[string]bool
 	verBound map[string]string
+	acquireSnap *State
+	topRets []retRec
 	nextOverride string
 	selfRef string // identity of the function value when a closure is verified standalone
 	modsDone bool
@@ -231,6 +236,12 @@ func (un *Unit) get(st *State, comp string) string {
 }
 
 func (un *Unit) set(st *State, comp, v string) {
+	if len(v) > 160 && comp != nextComp {
+		// name long update chains so that terms (and queries) stay small
+		n := un.u.freshConst(comp+"@s", un.compSort[comp])
+		un.addFact(eq(n, v))
+		v = n
+	}
 	st.heap[comp] = v
 	if comp != nextComp && un.compKind[comp] != "local" {
 		if _, ok := un.verBound[v]; !ok {
@@ -397,7 +408,26 @@ func isStructType(t types.Type) bool {
 // ---------- loads and stores ----------
 
 func (un *Unit) loadPlace(st *State, p *Place) string {
+	if p.elemOff != "" && len(p.keys) == 2 {
+		return un.gat(sel(un.get(st, p.comp), p.keys[0]), p.elemOff, p.elemIdx, un.u.sortOf(p.typ))
+	}
 	return sel(un.get(st, p.comp), p.keys...)
+}
+
+// gat: element i of a slice window starting at off in array a, as an application g_at(a, off, i) that is
+// axiomatised to equal (select a (+ off i)). Quantified facts about slices are stated over g_at, so that their
+// triggers bind the index as a whole (solvers normalise arithmetic inside select indices, which defeats matching).
+func (un *Unit) gat(a, off, i, elemSort string) string {
+	if un.u.bv {
+		return "(select " + a + " (bvadd " + off + " " + i + "))"
+	}
+	name := "g_at_" + sanitize(elemSort)
+	if !un.u.declared[name] {
+		un.u.declareFun(name, []string{arraySort("Int", elemSort), "Int", "Int"}, elemSort)
+		un.u.usesQuant = true
+		un.facts = append(un.facts, Fact{T: fmt.Sprintf("(forall ((ga (Array Int %s)) (go Int) (gi Int)) (! (= (%s ga go gi) (select ga (+ go gi))) :pattern ((%s ga go gi))))", elemSort, name, name), At: -1})
+	}
+	return "(" + name + " " + a + " " + off + " " + i + ")"
 }
 
 func (un *Unit) storePlace(st *State, p *Place, v string) {
@@ -1235,6 +1265,9 @@ func (un *Unit) execFunc(fr *Frame, st *State) ([]Val, *State) {
 			zs = append(zs, Val{t: un.zero(res.At(i).Type()), typ: res.At(i).Type()})
 		}
 		return zs, dead
+	}
+	if fr.parent == nil {
+		un.topRets = rets
 	}
 	var sts []*State
 	for _, r := range rets {
